@@ -47,6 +47,15 @@ NumSubjects == Strs({49, 50}, 3) \ {<<>>}
 Small == {<<97>>, <<98>>, <<cStar>>, <<cQm>>, <<97, 98>>}
 GroupPats == {<<cLP>> \o y[1] \o <<y[2]>> \o y[3] \o <<cRP>> \o y[4] : y \in Small \X {cBar, cComma} \X Small \X (Small \cup {<<>>})}   \* (a|b)c: longer than MaxPat
 
+\* segmented patterns: 1..3 clauses joined by '/', optionally negated; subjects: 0..4 tokens joined by '/'
+RECURSIVE Join(_)
+Join(ts) == IF ts = <<>> THEN <<>> ELSE IF Len(ts) = 1 THEN ts[1] ELSE ts[1] \o <<cSlash>> \o Join(Tail(ts))
+SegClauses == {<<cStar>>, <<97>>, <<98>>, <<97, cStar>>, <<cQm>>, <<97, cComma, 98>>}
+SegToks == {<<97>>, <<98>>}
+SegBodies == {Join(q) : q \in UNION {[1..m -> SegClauses] : m \in 1..3}}
+SegPats == SegBodies \cup {<<cTilde>> \o b : b \in SegBodies}
+SegSubs == {Join(q) : q \in UNION {[1..m -> SegToks] : m \in 0..4}}
+
 VARIABLES kind, x
 Mine(y) == (Len(y) + (IF y = <<>> THEN 0 ELSE y[1])) % NShards = Shard
 Init == \/ kind = "s" /\ Shard = 0 /\ x \in Strs(PatAlphabet, MaxStr)
@@ -54,6 +63,7 @@ Init == \/ kind = "s" /\ Shard = 0 /\ x \in Strs(PatAlphabet, MaxStr)
         \/ kind = "c" /\ Shard = 0 /\ x \in ClassPats
         \/ kind = "r" /\ Shard = 0 /\ x \in RangePats
         \/ kind = "g" /\ Shard = 0 /\ x \in GroupPats
+        \/ kind = "q" /\ Shard = NShards - 1 /\ x \in SegPats
 Next == UNCHANGED <<kind, x>>
 Spec == Init /\ [][Next]_<<kind, x>>
 
@@ -105,8 +115,32 @@ L_Range == kind = "r" =>
         /\ \A t \in U : (t = <<>> \/ ~IsDigit(t[1])) => Match3(x, t) = (IF \E k \in 1..Len(cls) : cls[k] = <<cDash>> THEN "E" ELSE "F")
    ELSE ~WellFormed(x)                                    \* a reversed range is not judged
 
-ZeroRegs == \A k \in 1..10 : TLCSet(k, 0)
+\* ---- segmented patterns
+NTok(s) == Len(SegTokens(s, cSlash, FALSE))
+\* one segment, one token: plain StringMatcher semantics
+L_SegOne == (kind = "q" /\ ~SegNeg(x) /\ Len(SegOfPattern(x, cSlash, FALSE)) = 1) =>
+   (Hit(11) /\ \A s \in SegSubs : \A pf \in BOOLEAN : NTok(s) = 1 => (SegMatches(x, s, cSlash, pf) <=> Matches(x, s)))
+\* "the number of tokens in the pattern must exactly match the number of tokens in the string"; with prefixMatchOkay the string may be longer, never shorter
+L_SegCount == kind = "q" => \A s \in SegSubs :
+   LET n == Len(SegOfPattern(x, cSlash, FALSE)) IN
+   ((NTok(s) # n) => (SegMatches(x, s, cSlash, FALSE) <=> SegNeg(x))) /\ ((NTok(s) < n) => (SegMatches(x, s, cSlash, TRUE) <=> SegNeg(x)))
+\* a pattern of n '*' segments matches exactly the strings of n tokens (a '*' segment stands for exactly one segment)
+L_SegStar == (kind = "q" /\ ~SegNeg(x) /\ \A n \in 1..Len(SegOfPattern(x, cSlash, FALSE)) : SegOfPattern(x, cSlash, FALSE)[n] = <<cStar>>) =>
+   (Hit(12) /\ \A s \in SegSubs : ((SegMatches(x, s, cSlash, FALSE) <=> (NTok(s) = Len(SegOfPattern(x, cSlash, FALSE))))
+                                     /\ (SegMatches(x, s, cSlash, TRUE) <=> (NTok(s) >= Len(SegOfPattern(x, cSlash, FALSE))))))
+\* level-by-level: L(p1/p2) = L(p1) / L(p2)
+L_SegCompose == (kind = "q" /\ ~SegNeg(x)) => \A k \in 2..(Len(x) - 1) : x[k] = cSlash =>
+   LET p1 == SubSeq(x, 1, k - 1)  p2 == SubSeq(x, k + 1, Len(x))  n1 == Len(SegOfPattern(p1, cSlash, FALSE)) IN
+   Hit(13) /\ \A s \in SegSubs : LET ts == SegTokens(s, cSlash, FALSE) IN
+      SegMatches(x, s, cSlash, FALSE) <=> (Len(ts) >= n1 /\ SegMatches(p1, Join(SubSeq(ts, 1, n1)), cSlash, FALSE) /\ SegMatches(p2, Join(SubSeq(ts, n1 + 1, Len(ts))), cSlash, FALSE))
+\* prefix mode = some prefix of the tokens matches exactly; negation = complement
+L_SegPrefix == (kind = "q" /\ ~SegNeg(x)) => \A s \in SegSubs : LET ts == SegTokens(s, cSlash, FALSE) IN
+   SegMatches(x, s, cSlash, TRUE) <=> \E k \in 0..Len(ts) : SegMatches(x, Join(SubSeq(ts, 1, k)), cSlash, FALSE)
+L_SegNeg == (kind = "q" /\ ~SegNeg(x)) => (Hit(14) /\ \A s \in SegSubs : \A pf \in BOOLEAN : SegMatches(<<cTilde>> \o x, s, cSlash, pf) <=> ~SegMatches(x, s, cSlash, pf))
+
+ZeroRegs == \A k \in 1..14 : TLCSet(k, 0)
 ASSUME ZeroRegs
 Summary == PrintT("@@" \o ToJson([escape |-> TLCGet(1), unique |-> TLCGet(2), uvlist |-> TLCGet(3), atoms |-> TLCGet(4), concat |-> TLCGet(5),
-                                   alt |-> TLCGet(6), group |-> TLCGet(7), neg |-> TLCGet(8), class |-> TLCGet(9), range |-> TLCGet(10)]))
+                                   alt |-> TLCGet(6), group |-> TLCGet(7), neg |-> TLCGet(8), class |-> TLCGet(9), range |-> TLCGet(10),
+                                   segone |-> TLCGet(11), segstar |-> TLCGet(12), segcompose |-> TLCGet(13), segneg |-> TLCGet(14)]))
 =============================================================================
